@@ -53,8 +53,8 @@ UNIT = {
     ],
     'stubs': ['text_subst (each must match the source): the three calls `return first_unpr(k-1, pdn);` below a FIXED variable become a recording ghost call (so the recursion of first_unpr into itself is an assumed step, not an induction); in first_unpr the reference `isForSets() ? ev_from(k+1) : ev_to(k+1)` (a conditional lvalue, not C) is extracted as `ev_from(k+1)` - it sits in the edge-valued branch, which is dead for EdgeOp_none', 'the iterator cursor accessors (M_from / M_to / mask_to / U_to ...) return ghost cells; first_unpr (the step below) records its arguments and returns an arbitrary answer; '
               'forest getters, getDownPtr and the unpacked-node calls are ghost values'],
-    'assumptions': ['EdgeOp_none::hasEdgeValues() is an executable stub returning false (as in src/forest_edgerules.h), U_to(k) an executable stub returning the ghost cursor', 'EdgeOp_none instance (no edge values); only the fixed-variable branch (U_to(k) == 0) is entered: the scan over a free primed variable is not under this contract'],
-    'unverified_surroundings': {'C11': ['iterator_templ::next, the free-variable scans of first_unpr / first_pri (which value is tried next, in which order), random_*; edge-valued instances of the iterator; that the steps add up to the enumeration of the function (induction over the diagram)']},
+    'assumptions': ['job first_pri_fixed covers BOTH branches of first_pri since 2026-09-23 (the name is historical): g_U == NULL is the fixed variable, otherwise the scan over the free primed variable; in the scan the step below answers true exactly on one ghost child, which first occurs at ghost position g_zs (any position, or none): the sparse cursor node is assumed sorted by index (U-sortb), so ascending position is lexicographic order', 'EdgeOp_none::hasEdgeValues() is an executable stub returning false (as in src/forest_edgerules.h), U_to(k) an executable stub returning the ghost cursor', 'EdgeOp_none instance (no edge values); first_unpr: only the fixed-variable branch (U_from(k) == 0) is entered, its two scans over a free unprimed variable are proved unreachable there and are not under contract'],
+    'unverified_surroundings': {'C11': ['iterator_templ::next, the two free-variable scans of first_unpr, random_*; edge-valued instances of the iterator; that the steps add up to the enumeration of the function (induction over the diagram)']},
     'jobs': [
         job('first_pri_fixed', 'iterator_templ__first_pri', STUBS, loops=1, object_bits=11),
         job('first_unpr_fixed', 'iterator_templ__first_unpr', [x for x in STUBS if x != 'iterator_templ__first_unpr'] + ['iterator_templ__first_pri', 'iterator_templ__Z_from', 'iterator_templ__isMultiTerminal', 'iterator_templ__M_setTerm', 'iterator_templ__M_setTerm_ev'], loops=2, object_bits=11, defines=['JOB_UNPR'], recursive=True),
